@@ -108,3 +108,20 @@ def dead_test(e):
     """atom predicate for idioms.guarded: True if e is a dead-status test."""
     s = dead_status_set(e)
     return True if s else None
+
+
+def is_fresh_container(v):
+    """Expression builds a new container object (display, comprehension,
+    dict()/list()/set()/copy(), .copy()) rather than aliasing an existing one."""
+    if isinstance(v, (ast.Dict, ast.List, ast.Set, ast.ListComp, ast.DictComp, ast.SetComp)):
+        return True
+    if isinstance(v, ast.Call):
+        d = dotted(v.func) or ''
+        if d in ('dict', 'list', 'set', 'copy.copy', 'copy.deepcopy', 'copy', 'deepcopy',
+                 'sorted', 'tuple'):
+            return True
+        if isinstance(v.func, ast.Attribute) and v.func.attr == 'copy':
+            return True
+    if isinstance(v, ast.BinOp) and isinstance(v.op, ast.Add):
+        return True      # list + list builds a new list
+    return False
